@@ -161,7 +161,7 @@ class RustBlockingAsyncAnalyzer(RustBaseAnalyzer):
         if pattern is None:
             return None
 
-        if _is_inside_blocking_wrapper(call_node):
+        if _is_inside_blocking_wrapper(call_node) or _is_awaited(call_node):
             return None
 
         return BlockingCall(
@@ -351,6 +351,23 @@ _ASYNC_WRAPPER_FUNCTIONS = frozenset(
         "block_in_place",
     }
 )
+
+
+def _is_awaited(call_node: Node) -> bool:
+    """Check if the call's result is awaited, i.e. the call returns a future.
+
+    The blocking std APIs return plain values, so `fs::read_to_string(path).await`
+    can only be an async replacement that was imported under the same short name
+    (`use tokio::fs;`, `use async_std::fs;`).
+
+    Args:
+        call_node: A call_expression node
+
+    Returns:
+        True if the call expression is the operand of `.await`
+    """
+    parent = call_node.parent
+    return parent is not None and parent.type == "await_expression"
 
 
 def _is_inside_blocking_wrapper(node: Node) -> bool:
